@@ -1,9 +1,125 @@
-import Ivg.Model.Decoder
-import Ivg.Model.Arc
-import Ivg.Model.MdIcons
+import Ivg.Lemmas.RendererVM
 import Ivg.Gen.Tie
 import Ivg.Obligations
-/-! # Property C16 — theorems (work in progress: tie obligations only so far) -/
+/-!
+# C16 — invariances of rendering (the repository's part)
+
+Property text (the clauses this file settles; pixels come from golang.org/x/image/vector, which is not
+modelled): "(a) drawn into a rectangle at any offset … (c) coloured through palette indices, registers
+and blends versus the equivalent direct colours. … the configured compositing operator applies to the
+first drawn path only, later paths compositing source-over."
+
+What the repository contributes to these clauses is the sequence of calls the Renderer makes on the
+rasteriser (`RasterOp`s: `Reset`, `MoveTo`, …, `Draw(r, paint)`), and the operator `vec.Rasterizer`
+passes to each `Draw`.  The theorems say these sequences are equal under (a) and (c); given equal
+calls, equal pixels are x/image/vector's determinism.
+-/
 namespace Ivg.Props.C16
+open Ivg Ivg.Ren Ivg.Spec.VM Ivg.Lemmas.RendererVM Ivg.VecRaster
+
+variable {α β : Type} [Arith α] [Arith β] [Wide α β]
+
+/-! ## (a) offset of the destination rectangle -/
+
+/-- Clause (a): pointing the Renderer at the same rectangle moved by `(ox, oy)` and delivering the same
+    call sequence makes exactly the same rasteriser calls (the rasteriser is reset to the same size and
+    receives the same path coordinates and paints), except that each `Draw` targets the moved
+    rectangle.  `arc` may be any arc implementation that only adds path segments and does not look at
+    the rectangle. -/
+theorem origin_independent (arc : ArcFn α β) (hArc : ArcRectIndep arc) (hPure : ArcPure arc) (posInf : α)
+    (z0 : Renderer α β) (r : Rect) (ox oy : Int) (p : List (Call α)) :
+    ((z0.setRasterizer (Rect.translate r ox oy)).run arc posInf p).2 =
+      ((z0.setRasterizer r).run arc posInf p).2.map (retarget (Rect.norm (Rect.translate r ox oy))) :=
+  Lemmas.RendererVM.origin_independent arc hArc hPure posInf z0 r ox oy p
+/-- both arc hypotheses hold for the model of `AbsArcTo` -/
+example : ArcRectIndep arcF32 ∧ ArcPure arcF32 := ⟨arcF32_rectIndep, arcF32_pure⟩
+
+/-- One call, same statement with the resulting states: a Renderer pointed at another rectangle of the
+    same size goes through the same states (up to the rectangle). -/
+theorem origin_independent_step (arc : ArcFn α β) (hArc : ArcRectIndep arc) (hPure : ArcPure arc)
+    (posInf : α) (z : Renderer α β) (r' : Rect) (hx : r'.dx = z.r.dx) (hy : r'.dy = z.r.dy) (c : Call α) :
+    Renderer.step arc posInf { z with r := r' } c =
+      ({ (z.step arc posInf c).1 with r := r' }, (z.step arc posInf c).2.map (retarget r')) :=
+  step_setR arc hArc hPure posInf z r' hx hy c
+example : (⟨110, 220, 134, 244⟩ : Rect).dx = Ex.z24.r.dx ∧ (⟨110, 220, 134, 244⟩ : Rect).dy = Ex.z24.r.dy := by
+  decide
+
+/-! ## (c) colour indirection -/
+
+/-- Clause (c): replacing in a program the colour operand of every `SetCReg` — palette index, register
+    reference, blend — by the direct RGBA colour the specification's machine resolves it to at that
+    point (`directify` threads the machine state, starting from the state the Renderer represents)
+    drives the Renderer through exactly the same states and makes exactly the same rasteriser calls
+    with the same paints.  Any program, any Renderer state, any arc implementation. -/
+theorem colour_indirection (arc : ArcFn α β) (posInf : α) (p : List (Call α)) (z : Renderer α β) :
+    z.run arc posInf (directify posInf (absVM z) p) = z.run arc posInf p :=
+  Lemmas.RendererVM.colour_indirection arc posInf p z
+
+/-- … for a whole graphic delivered to any Renderer: the machine state after `Reset` is the
+    specification's initial state for the custom palette. -/
+theorem colour_indirection_program (arc : ArcFn α β) (posInf : α) (z0 : Renderer α β) (vb : ViewBox α)
+    (pal : Palette) (body : List (Call α)) :
+    z0.run arc posInf (.reset vb pal :: directify posInf (VM.init posInf pal) body) =
+      z0.run arc posInf (.reset vb pal :: body) := by
+  rw [run_cons, run_cons]
+  have h1 : z0.step arc posInf (.reset vb pal) = (z0.reset posInf vb pal, []) := rfl
+  rw [h1, ← abs_reset z0 posInf vb pal, Lemmas.RendererVM.colour_indirection]
+set_option maxRecDepth 100000 in
+/-- the transformer is not the identity: in `Ex.body` the palette-index, register-reference and blend
+    operands become direct colours (opaque black, opaque black, black at alpha 0x40) -/
+example : ((directify Ex.posInf (VM.init Ex.posInf defaultPalette) Ex.body).drop 21).take 3 =
+    [.setCReg 3 false (Color.rgbaColor ⟨0, 0, 0, 0xff⟩), .setCReg 4 false (Color.rgbaColor ⟨0, 0, 0, 0xff⟩),
+     .setCReg 5 false (Color.rgbaColor ⟨0, 0, 0, 0x40⟩)] := by decide +kernel
+
+/-! ## the configured compositing operator -/
+
+/-- Clause "the configured compositing operator applies to the first drawn path only, later paths
+    compositing source-over", in `raster/vec`: over any sequence of rasteriser calls — resets, path
+    operations, draws — starting with `DrawOp = op`, the operators used by the successive draws are
+    `op, Over, Over, …` (the promoted `Reset` of the embedded `vector.Rasterizer` cannot clear the
+    outer field; `Draw` copies it inward and then sets it to `Over`). -/
+theorem drawop_first_only (z : Rasterizer) (cs : List RCall) :
+    z.run cs = match cs.count .draw with
+      | 0 => []
+      | n + 1 => z.drawOp :: List.replicate n .over :=
+  Lemmas.RendererVM.drawop_first_only z cs
+example : (⟨.src, .over⟩ : Rasterizer).run [.reset, .pathOp, .draw, .reset, .pathOp, .draw, .reset, .draw] =
+    [.src, .over, .over] := by decide
+
+/-- … composed with the Renderer: for a program that respects the protocol, the operators with which
+    its paths are composited are the configured one for the first path that the machine paints and
+    `Over` for all later ones (paths that are not painted do not consume it). -/
+theorem renderer_drawops (arc : ArcFn α β) (hArc : ArcPure arc) (posInf : α) (z0 : Renderer α β)
+    (vb : ViewBox α) (pal : Palette) (body : List (Call α)) (hb : Body body) (v : Rasterizer) :
+    v.run ((z0.run arc posInf (.reset vb pal :: body)).2.map toRCall) =
+      match (VM.paints posInf z0.r.dy (VM.init posInf pal) body).length with
+      | 0 => []
+      | n + 1 => v.drawOp :: List.replicate n .over := by
+  rw [Lemmas.RendererVM.drawop_first_only, count_draw,
+    Lemmas.RendererVM.render_refines_vm arc hArc posInf z0 vb pal body hb, List.length_map]
+  generalize (VM.paints posInf z0.r.dy (VM.init posInf pal) body).length = n
+  cases n <;> rfl
+example : Body Ex.body := Ex.body_ok
+
+/-!
+## Not proved here
+
+* Pixels: `vector.Rasterizer` (accumulation, `Draw`'s compositing) is outside the repository and not
+  modelled; the theorems stop at the calls made on it.  That drawing at `r.Min + (ox, oy)` with the
+  same mask and paint yields the translated pixels is a property of x/image/vector (`Draw` aligns
+  `r.Min` with `sp = (0,0)`) — for gradient paints note that `Gradient.At` is evaluated in the
+  rasteriser's coordinates relative to `r.Min`, which the model's `Draw (r, paint)` with `sp = (0,0)`
+  records but does not interpret.
+* Clause (b) / power-of-two scaling (`pow2_scaling`) is handled elsewhere.
+* `NewRasterizer` (which calls the inner `Reset`) and the `Dst` field are not modelled: neither touches
+  the outer `DrawOp` (`Gen.Tie.vecRasterizer_fields_tie` pins the field list).
+-/
+
 end Ivg.Props.C16
-#obligations C16 [Ivg.Gen.Tie.drawOps_tie, Ivg.Gen.Tie.magic_tie, Ivg.Gen.Tie.errorStrings_tie]
+
+#obligations C16 [
+  Ivg.Props.C16.origin_independent, Ivg.Props.C16.origin_independent_step,
+  Ivg.Props.C16.colour_indirection, Ivg.Props.C16.colour_indirection_program,
+  Ivg.Props.C16.drawop_first_only, Ivg.Props.C16.renderer_drawops,
+  Ivg.Lemmas.RendererVM.arcF32_rectIndep, Ivg.Lemmas.RendererVM.arcF32_pure,
+  Ivg.Gen.Tie.vecRasterizer_fields_tie, Ivg.Gen.Tie.renderer_fields_tie]
